@@ -14,7 +14,9 @@ JudgeDec(e) ==
     LET r == Dec(e.args.ds) IN
     IF r.k = "err" THEN e.out.k = "err"
     ELSE IF AllInDomain(r.vals) THEN e.out.k = "ok" /\ e.out.vals = r.vals
-    ELSE e.out.k \in {"ok", "err"}      \* outside the statement's domain: only "no panic"
+    ELSE \* values beyond 62 bits (still within 13 digits): an implementation with 64-bit integers may refuse them,
+         \* but what it does return must be the standard's values -- never a value with bits dropped
+         e.out.k = "err" \/ (e.out.k = "ok" /\ e.out.vals = r.vals)
 
 JudgeEnc(e) ==
     IF AllInDomain(e.args.vals) THEN e.out.k = "ok" /\ e.out.ds = EncList(e.args.vals)
